@@ -227,7 +227,7 @@ Qed.
 (* ---- elaborated nodes ---- *)
 Definition rkind (n : rnode) : okind :=
   match rbody_of n with RModule _ _ _ => KModule | RClass _ _ _ _ => KClass | RFunction _ _ => KFunction
-                      | RAttribute _ => KAttribute | RAlias _ => KAlias end.
+                      | RAttribute _ _ => KAttribute | RAlias _ => KAlias end.
 Lemma elab_node_alias r ll i n : is_alias (elab_node r ll i n) = r_is_alias n.
 Proof. unfold is_alias, r_is_alias, elab_node, elab_body. simpl. destruct (rbody_of n); reflexivity. Qed.
 Lemma elab_node_kind r ll i n : kind_of (elab_node r ll i n) = rkind n.
@@ -413,9 +413,9 @@ End Through.
 Definition ex_h (v : nat) : rstore :=
   mkRS [ mkR "pkg" None (RModule None [] [("Base", 1); ("_Mid", 3); ("Leaf", 5)]);
          mkR "Base" None (RClass [] [] [] [("color", 2)]);
-         mkR "color" None (RAttribute (Some 1));
+         mkR "color" None (RAttribute (Some 1) None);
          mkR "_Mid" None (RClass [] [10] [["pkg"; "Base"]] [("color", 4)]);
-         mkR "color" None (RAttribute (Some v));
+         mkR "color" None (RAttribute (Some v) None);
          mkR "Leaf" None (RClass [] [11] [["pkg"; "_Mid"]] []) ]
        [("pkg", 0)].
 Example override_in_private_base_reported :
@@ -434,8 +434,8 @@ Definition ex_f (b : rbody) : rstore :=
        [("pkg", 0)].
 Example reexport_rekinding_reported :
   outcome (ex_f (RFunction [] None)) 1 = TRes 3 /\
-  exists s l, fbc (elab (ex_f (RFunction [] None))) (elab (ex_f (RAttribute None))) 17 0 0 = Ok s l /\
-              breakages (elab (ex_f (RFunction [] None))) (elab (ex_f (RAttribute None))) l = [BKind 3].
+  exists s l, fbc (elab (ex_f (RFunction [] None))) (elab (ex_f (RAttribute None None))) 17 0 0 = Ok s l /\
+              breakages (elab (ex_f (RFunction [] None))) (elab (ex_f (RAttribute None None))) l = [BKind 3].
 Proof. split; [vm_compute; reflexivity|]. eexists. eexists. split; vm_compute; reflexivity. Qed.
 
 (* chains and cycles of re-exports: a -> b -> f resolves link by link; a -> b -> a is a CyclicAliasError; a -> missing an
@@ -729,3 +729,47 @@ Proof.
     + intros x [X|[]]. subst x. apply (rget_lt r i n E).
   - destruct f as [|f]; [lia|]. rewrite !chase_unfold, E. reflexivity.
 Qed.
+
+(* ---- from the roots: a public class of the root module, its whole inherited view is compared ---- *)
+Lemma elab_node_members_module r ll i n e im ms : rbody_of n = RModule e im ms -> all_members (elab_node r ll i n) = ms.
+Proof. intros H. unfold all_members, elab_node, elab_body. simpl. rewrite H. reflexivity. Qed.
+
+Theorem root_class_change_reported ro rn ri rj fuel s l :
+  fbc (elab ro) (elab rn) fuel ri rj = Ok s l ->
+  forall rmo rmn e im ms e' im' ms' cname c c' cn cn' n o o' on on' b,
+  rget ro ri = Some rmo -> rbody_of rmo = RModule e im ms -> rget rn rj = Some rmn -> rbody_of rmn = RModule e' im' ms' ->
+  lookup cname ms = Some c -> lookup cname ms' = Some c' -> rclass_of ro c cn -> rclass_of rn c' cn' ->
+  is_public (elab_node ro (inhs ro) ri rmo) (elab_node ro (inhs ro) c cn) = true ->
+  provider ro c n = Some o -> provider rn c' n = Some o' ->
+  rget ro o = Some on -> r_is_alias on = false -> rget rn o' = Some on' -> r_is_alias on' = false ->
+  (forall j mo, view ro c cn n = Some j -> get (elab ro) j = Some mo -> is_public (elab_node ro (inhs ro) c cn) mo = true) ->
+  In b (local (elab ro) (elab rn) (EHead o o')) -> In b (breakages (elab ro) (elab rn) l).
+Proof.
+  intros Hrun rmo rmn e im ms e' im' ms' cname c c' cn cn' n o o' on on' b Hr Br Hr' Br' Lc Lc' Hc Hc' Pc P P' Ho Hoa Ho' Hoa' Hpub Hb.
+  apply (inherited_change_reported ro rn ri rj fuel s l Hrun c c' cn cn' n o o' on on' b); try assumption.
+  apply (V_root_member (elab ro) (elab rn) ri rj (elab_node ro (inhs ro) ri rmo) (elab_node rn (inhs rn) rj rmn) cname c
+           (elab_node ro (inhs ro) c cn) c').
+  - apply elab_get_raw. exact Hr.
+  - apply elab_get_raw. exact Hr'.
+  - rewrite (elab_node_members_module ro (inhs ro) ri rmo e im ms Br). apply lookup_in. exact Lc.
+  - apply elab_get_raw. exact (proj1 Hc).
+  - exact Pc.
+  - rewrite (elab_node_members_module rn (inhs rn) rj rmn e' im' ms' Br'). exact Lc'.
+Qed.
+
+(* a base named through a plain assignment: class Base: color = 1 / Impl = Base / class Leaf(Impl): pass -- resolved_bases follows
+   the attribute to the class, so Leaf shows Base.color; Loop = Loop2 / Loop2 = Loop is dropped (a path comes back) *)
+Definition ex_a : rstore :=
+  mkRS [ mkR "pkg" None (RModule None [] [("Base", 1); ("Impl", 3); ("Leaf", 4); ("Loop", 5); ("Loop2", 6); ("Odd", 7)]);
+         mkR "Base" None (RClass [] [] [] [("color", 2)]);
+         mkR "color" None (RAttribute (Some 1) None);
+         mkR "Impl" None (RAttribute (Some 9) (Some ["pkg"; "Base"]));
+         mkR "Leaf" None (RClass [] [10] [["pkg"; "Impl"]] []);
+         mkR "Loop" None (RAttribute (Some 11) (Some ["pkg"; "Loop2"]));
+         mkR "Loop2" None (RAttribute (Some 12) (Some ["pkg"; "Loop"]));
+         mkR "Odd" None (RClass [] [13] [["pkg"; "Loop"]] []) ]
+       [("pkg", 0)].
+Example assigned_base_followed :
+  rbases ex_a (mkR "Leaf" None (RClass [] [10] [["pkg"; "Impl"]] [])) = [1] /\ provider ex_a 4 "color" = Some 2 /\
+  rbases ex_a (mkR "Odd" None (RClass [] [13] [["pkg"; "Loop"]] [])) = [] /\ rwf ex_a = true.
+Proof. repeat split; vm_compute; reflexivity. Qed.
